@@ -25,6 +25,12 @@ SPECS = {
             {"num": ["<n>", "<d>"], "word": ["<w>", "<body>", "<hdr>"],
              "children": {"<start>": ["<hdr>", "<body>"], "<hdr>": ["<n>"], "<n>": ["<d>"], "<body>": ["<w>"], "<w>": ["<d>", "<body>"]}},
             []),
+    "grp": ("<start> ::= <n> ('[' <x> ']'){int(<n>)} '.' <t>?\n<n> ::= '0' | '1' | '2' | '3'\n<x> ::= <d>+\n<d> ::= '4' | '5' | '6'\n<t> ::= 'end'\n",
+            {"num": ["<n>", "<x>", "<d>"], "word": ["<t>"], "children": {"<start>": ["<n>", "<x>", "<t>"], "<x>": ["<d>"]}},
+            [("<x>", "<n>")]),
+    "recs": ("<start> ::= <rec> (';' <rec>){0,2}\n<rec> ::= <n> ':' <item>{int(<n>)}\n<n> ::= '0' | '1' | '2' | '3' | '4'\n<item> ::= 'a' | 'b'\n",
+             {"num": ["<n>"], "word": ["<item>", "<rec>"], "children": {"<start>": ["<rec>"], "<rec>": ["<n>", "<item>"]}},
+             []),
     "two": ("<start> ::= <a> <x>{int(<a>)} '|' <b> <y>{int(<b>), 4}\n<a> ::= '1' | '2'\n<b> ::= '0' | '1' | '2'\n<x> ::= 'p' | 'q'\n<y> ::= <d>\n<d> ::= '7' | '8'\n",
             {"num": ["<a>", "<b>", "<d>", "<y>"], "word": ["<x>"], "children": {"<start>": ["<a>", "<x>", "<b>", "<y>"], "<y>": ["<d>"]}},
             [("<x>", "<a>")]),
@@ -37,7 +43,7 @@ def cases(tier, seed):
     out = []
     names = list(SPECS)
     for i in range(n):
-        out.append({"key": f"gen-{names[i % 3]}-{i}", "kind": "gen", "g": names[i % 3], "seed": rng.randrange(1 << 30)})
+        out.append({"key": f"gen-{names[i % len(names)]}-{i}", "kind": "gen", "g": names[i % len(names)], "seed": rng.randrange(1 << 30)})
     from vf.gen import harvest
 
     for j, f in enumerate(harvest.safe_complete_specs()):
@@ -99,10 +105,14 @@ def run_case(c):
         stats["runs"] += 1
         env = dict(f.grammar._global_variables)
         judged = 0
+        from vf.ref.grammar_model import from_fandango
+        gm = from_fandango(f.grammar)
         for t in sols:
             stats["solutions_judged"] += 1
             stats["solutions_judged_by_reference"] += 1
             judged += 1
+            if not gm.accepts(str(t), "<start>"):
+                violations.append({"what": f"emitted solution {str(t)!r} is not a word of the grammar (computed repetitions read as {{0,}})", "mech": None, "spec": spec})
             for cons in conss:
                 self_hits = []
                 sr0 = cs.SELECTOR_RAISED[0]
@@ -131,6 +141,15 @@ def run_case(c):
                         violations.append({"what": f"emitted solution {str(t)!r}: {got} x {child} but the computed bound int({cnt}) = {want}", "mech": None, "spec": spec})
                 except StopIteration:
                     pass
+            if c["g"] == "recs":
+                # several instances of one computed repetition in a tree: every record is checked on its own
+                for rec in [n for n in t.flatten() if n.symbol.is_non_terminal and n.symbol.name() == "<rec>"]:
+                    want = int(str(rec._children[0]))
+                    got = sum(1 for n in rec._children if n.symbol.is_non_terminal and n.symbol.name() == "<item>")
+                    stats["repetition_bounds_checked"] += 1
+                    if want != got:
+                        violations.append({"what": f"emitted solution {str(t)!r}: record {str(rec)!r} has {got} items but its computed bound is {want}", "mech": None, "spec": spec})
+                        break
             if c["g"] == "two":
                 try:
                     b = int(str(next(n for n in t.flatten() if n.symbol.is_non_terminal and n.symbol.name() == "<b>")))
